@@ -1,8 +1,7 @@
 #!/bin/sh
-# Re-runs every kept seeded change against the current checks (quick tier) and prints one line per seed.
+# Re-runs every kept seeded change against the current checks (quick tier) and prints two lines per seed (the second says
+# whether THIS run caught it).  LANES seeds at a time (default 3), each check with VERIF_JOBS worker processes (default 5).
 cd /verif || exit 2
-for d in seeded/*/; do
-  id=$(basename "$d"); prop=$(echo "$id" | cut -d- -f1)
-  tools/seedcheck.py "$d" "$id" "$prop" > /tmp/reseed_$id.txt 2>&1
-  head -1 /tmp/reseed_$id.txt | cut -c1-200
-done
+LANES=${LANES:-3}
+export VERIF_JOBS=${VERIF_JOBS:-5}
+ls -d seeded/*/ | xargs -P "$LANES" -I{} sh -c 'id=$(basename {}); prop=$(echo "$id" | cut -d- -f1); tools/seedcheck.py {} "$id" "$prop" > /tmp/reseed_$id.txt 2>&1; head -2 /tmp/reseed_$id.txt | cut -c1-160 | tr "\n" " "; echo'
